@@ -101,4 +101,10 @@ size_t   g_regs;    /* number of id_map_register calls (stub accounting)        
 	    (m)->id_min_val == __CPROVER_old((m)->id_min_val) &&             \
 	    (m)->id_max_val == __CPROVER_old((m)->id_max_val))
 
+/* pre-state snapshot (locals woven at function entry, read by vp/replay.py) */
+#define VP_SNAP_IDM(m)                                                       \
+	uint64_t vp_in_min = (m)->id_min_val, vp_in_max = (m)->id_max_val,   \
+	         vp_in_dyn = (m)->id_dyn_val, vp_in_count = (m)->id_count,   \
+	         vp_in_cap = (m)->id_cap, vp_in_random = (m)->id_random
+
 #endif
